@@ -199,3 +199,19 @@ Example C03_nonvacuous_helpers : hzoom_strs 1 1 0 2 = ["2/2/0"; "2/3/0"; "2/2/1"
   hzoom_minmax_l 3 5 6 1 = [1; 1; 1; 1]%Z /\ check_change [mk 3 1 1 3 (-1)] 3 1 ["3/1/1/1/0"] = false /\
   check_change [mk 3 1 1 3 (-1)] 3 1 ["3/1/1/1/-1"] = true.
 Proof. repeat split; vm_compute; reflexivity. Qed.
+
+(* ---- tie to the source by regeneration (DESIGN.md 4.2): the per-axis kernels of integrate/change_zoom.go and shape.CheckZoom, translated
+   from /repo's current source on every run (generated/Generated.v), are the models the theorems above are stated on ---- *)
+From SIDGen Require Generated.
+From SID Require GenEqZoom GenEqCheck.
+Theorem C03_generated_HorizontalZoomMinMax_is_the_model : forall zin x y zout,
+  Generated.HorizontalZoomMinMax zin x y zout = ZoomCore.hzoom_minmax zin x y zout.
+Proof. exact GenEqZoom.gen_HorizontalZoomMinMax_eq. Qed.
+Print Assumptions C03_generated_HorizontalZoomMinMax_is_the_model.
+Theorem C03_generated_VerticalZoom_bounds_are_the_model : forall zin f zout,
+  Generated.VerticalZoom_minmax zin f zout = ZoomCore.vzoom_minmax zin f zout.
+Proof. exact GenEqZoom.gen_VerticalZoom_minmax_eq. Qed.
+Print Assumptions C03_generated_VerticalZoom_bounds_are_the_model.
+Theorem C03_generated_CheckZoom_is_the_model : forall z, Generated.CheckZoom z = Ids.check_zoom z.
+Proof. exact GenEqCheck.gen_CheckZoom_eq. Qed.
+Print Assumptions C03_generated_CheckZoom_is_the_model.
